@@ -42,7 +42,11 @@ class NoMapping(Exception):
     pass
 
 
-def run_mapper(desc, metrics=None, eval_in_detail=True, n_jobs=1, **kw):
+class MapperTimeout(Exception):
+    """The in-process mapper run exceeded its wall-clock watchdog: inconclusive, never a verdict."""
+
+
+def run_mapper(desc, metrics=None, eval_in_detail=True, n_jobs=1, timeout=150, **kw):
     """Returns the Mappings object; raises NoMapping when the mapper reports that no valid
     mapping exists."""
     from accelforge.mapper.FFM.main import map_workload_to_arch
@@ -51,8 +55,12 @@ def run_mapper(desc, metrics=None, eval_in_detail=True, n_jobs=1, **kw):
     spec = build_spec(desc)
     if metrics is not None:
         spec.mapper.metrics = metrics_of(metrics)
+    from .timeouts import ItemTimeout, time_limit
     try:
-        return map_workload_to_arch(spec, print_progress=False, eval_in_detail=eval_in_detail, **kw)
+        with time_limit(timeout):
+            return map_workload_to_arch(spec, print_progress=False, eval_in_detail=eval_in_detail, **kw)
+    except ItemTimeout:
+        raise MapperTimeout(f"mapper watchdog {timeout}s")
     except Exception as e:
         msg = str(e)
         if "No valid" in msg or "no valid" in msg or "No pmappings" in msg or "no pmappings" in msg \
